@@ -322,7 +322,10 @@ func (e *KnowledgeBase) Reset() {
 	}
 }
 
+// knowledgeBaseKeyEscaper makes sure a ':' inside the name can not be confused with the name:version separator.
+var knowledgeBaseKeyEscaper = strings.NewReplacer("\\", "\\\\", ":", "\\:")
+
 // GetKnowledgeBaseKey returns the key corresponding to the knowledgeBase in the KnowledgeLibrary
 func GetKnowledgeBaseKey(name, version string) string {
-	return fmt.Sprintf("%s:%s", name, version)
+	return fmt.Sprintf("%s:%s", knowledgeBaseKeyEscaper.Replace(name), version)
 }
